@@ -155,3 +155,181 @@ theorem lineCol_eq_pre (body : List Nat) (p : Nat) (hp : p ≤ body.length)
   simp [pre]; omega
 
 end Gql.Text
+
+/-! Part 2: what each token reader consumes (no CR / LF inside non-block tokens). -/
+namespace Gql.Text
+open Spec
+
+theorem index_of_lt {ε : Type} (body : List Nat) (i : Nat) (h : i < body.length) :
+    (Out.index body i : Out ε Nat) = .ok body[i] := by
+  unfold Out.index; simp [h]
+
+/-- No CR / LF among `body[p], …, body[q-1]`. -/
+def NoNL (body : List Nat) (p q : Nat) : Prop :=
+  ∀ i, p ≤ i → i < q → ∀ c, body[i]? = some c → c ≠ 10 ∧ c ≠ 13
+
+theorem NoNL.refl (body : List Nat) (p : Nat) : NoNL body p p := by
+  intro i h1 h2; omega
+
+theorem NoNL.snoc {body : List Nat} {p q : Nat} (h : NoNL body p q) (hq : q < body.length)
+    (hc : body[q] ≠ 10 ∧ body[q] ≠ 13) : NoNL body p (q + 1) := by
+  intro i h1 h2 c hi
+  by_cases e : i = q
+  · subst e
+    rw [List.getElem?_eq_getElem hq] at hi
+    cases hi; exact hc
+  · exact h i h1 (by omega) c hi
+
+theorem NoNL.trans {body : List Nat} {p q r : Nat} (h1 : NoNL body p q) (h2 : NoNL body q r) :
+    NoNL body p r := by
+  intro i a b c hi
+  by_cases e : i < q
+  · exact h1 i a e c hi
+  · exact h2 i (by omega) b c hi
+
+theorem NoNL.cons {body : List Nat} {p q : Nat} (h : NoNL body (p + 1) q) (hp : p < body.length)
+    (hc : body[p] ≠ 10 ∧ body[p] ≠ 13) : NoNL body p q := by
+  intro i h1 h2 c hi
+  by_cases e : i = p
+  · subst e
+    rw [List.getElem?_eq_getElem hp] at hi
+    cases hi; exact hc
+  · exact h i (by omega) h2 c hi
+
+theorem isNameContinue_not_nl (c : Nat) (h : isNameContinue c = true) : c ≠ 10 ∧ c ≠ 13 := by
+  unfold isNameContinue isLetter isDigit at h
+  constructor <;> (intro e; subst e; simp at h)
+
+theorem isDigit_not_nl (c : Nat) (h : isDigit c = true) : c ≠ 10 ∧ c ≠ 13 := by
+  unfold isDigit at h
+  constructor <;> (intro e; subst e; simp at h)
+
+theorem readNameLoop_spec (body : List Nat) (pos : Nat) (r : Nat)
+    (h : readNameLoop body pos = .ok r) (hp : pos ≤ body.length) :
+    pos ≤ r ∧ r ≤ body.length ∧ NoNL body pos r := by
+  fun_induction readNameLoop body pos generalizing r
+  · rename_i pos hlt ih
+    rw [index_of_lt body pos hlt] at h
+    simp only [Out.bind_ok] at h
+    split at h
+    · next hc =>
+      obtain ⟨a, b, c⟩ := ih r h (by omega)
+      exact ⟨by omega, b, c.cons hlt (isNameContinue_not_nl _ hc)⟩
+    · simp only [Out.pure_eq, Out.ok.injEq] at h
+      subst h; exact ⟨Nat.le_refl _, by omega, NoNL.refl _ _⟩
+  · simp only [Out.pure_eq, Out.ok.injEq] at h
+    subst h; exact ⟨Nat.le_refl _, hp, NoNL.refl _ _⟩
+
+theorem digitsLoop_spec (body : List Nat) (pos : Nat) (r : Nat)
+    (h : digitsLoop body pos = .ok r) (hp : pos ≤ body.length) :
+    pos ≤ r ∧ r ≤ body.length ∧ NoNL body pos r := by
+  fun_induction digitsLoop body pos generalizing r
+  · rename_i pos hlt ih
+    rw [index_of_lt body pos hlt] at h
+    simp only [Out.bind_ok] at h
+    split at h
+    · next hc =>
+      obtain ⟨a, b, c⟩ := ih r h (by omega)
+      exact ⟨by omega, b, c.cons hlt (isDigit_not_nl _ hc)⟩
+    · simp only [Out.pure_eq, Out.ok.injEq] at h
+      subst h; exact ⟨Nat.le_refl _, by omega, NoNL.refl _ _⟩
+  · simp only [Out.pure_eq, Out.ok.injEq] at h
+    subst h; exact ⟨Nat.le_refl _, hp, NoNL.refl _ _⟩
+
+end Gql.Text
+
+namespace Gql.Text
+open Spec
+
+theorem isSupplementary_spec (body : List Nat) (i : Nat) (h : isSupplementary body i = true) :
+    ∃ (h1 : i < body.length) (h2 : i + 1 < body.length),
+      isLeadSurrogate body[i] = true ∧ isTrailSurrogate body[i + 1] = true := by
+  unfold isSupplementary at h
+  split at h
+  · next a b ha hb =>
+    have h1 : i < body.length := by
+      rcases Nat.lt_or_ge i body.length with x | x
+      · exact x
+      · rw [List.getElem?_eq_none x] at ha; exact absurd ha (by simp)
+    have h2 : i + 1 < body.length := by
+      rcases Nat.lt_or_ge (i + 1) body.length with x | x
+      · exact x
+      · rw [List.getElem?_eq_none x] at hb; exact absurd hb (by simp)
+    rw [List.getElem?_eq_getElem h1] at ha
+    rw [List.getElem?_eq_getElem h2] at hb
+    cases ha; cases hb
+    simp only [Bool.and_eq_true] at h
+    exact ⟨h1, h2, h.1, h.2⟩
+  · simp at h
+
+theorem lead_not_nl (c : Nat) (h : isLeadSurrogate c = true) : c ≠ 10 ∧ c ≠ 13 := by
+  unfold isLeadSurrogate at h
+  constructor <;> (intro e; subst e; simp at h)
+
+theorem trail_not_nl (c : Nat) (h : isTrailSurrogate c = true) : c ≠ 10 ∧ c ≠ 13 := by
+  unfold isTrailSurrogate at h
+  constructor <;> (intro e; subst e; simp at h)
+
+theorem readCommentLoop_spec (body : List Nat) (pos : Nat) (r : Nat)
+    (h : readCommentLoop body pos = .ok r) (hp : pos ≤ body.length) :
+    pos ≤ r ∧ r ≤ body.length ∧ NoNL body pos r := by
+  fun_induction readCommentLoop body pos generalizing r
+  · rename_i pos hlt ih1 ih2
+    rw [index_of_lt body pos hlt] at h
+    simp only [Out.bind_ok] at h
+    split at h
+    · simp only [Out.pure_eq, Out.ok.injEq] at h
+      subst h; exact ⟨Nat.le_refl _, by omega, NoNL.refl _ _⟩
+    · next hnl =>
+      have hc : body[pos] ≠ 10 ∧ body[pos] ≠ 13 := by
+        constructor <;> (intro e; apply hnl; simp [e])
+      split at h
+      · obtain ⟨a, b, c⟩ := ih1 r h (by omega)
+        exact ⟨by omega, b, c.cons hlt hc⟩
+      · split at h
+        · next hs =>
+          obtain ⟨h1, h2, l1, l2⟩ := isSupplementary_spec body pos hs
+          obtain ⟨a, b, c⟩ := ih2 r h (by omega)
+          refine ⟨by omega, b, ?_⟩
+          exact (c.cons h2 (trail_not_nl _ l2)).cons hlt hc
+        · simp only [Out.pure_eq, Out.ok.injEq] at h
+          subst h; exact ⟨Nat.le_refl _, by omega, NoNL.refl _ _⟩
+  · simp only [Out.pure_eq, Out.ok.injEq] at h
+    subst h; exact ⟨Nat.le_refl _, hp, NoNL.refl _ _⟩
+
+end Gql.Text
+
+namespace Gql.Text
+open Spec
+
+theorem charAt_some_lt (body : List Nat) (i c : Nat) (h : charAt body i = some c) :
+    ∃ hl : i < body.length, body[i] = c := by
+  unfold charAt at h
+  rcases Nat.lt_or_ge i body.length with x | x
+  · rw [List.getElem?_eq_getElem x] at h; cases h; exact ⟨x, rfl⟩
+  · rw [List.getElem?_eq_none x] at h; exact absurd h (by simp)
+
+theorem readDigits_spec (body : List Nat) (start r : Nat)
+    (h : readDigits body start (charAt body start) = .ok r) :
+    start < r ∧ r ≤ body.length ∧ NoNL body start r := by
+  unfold readDigits at h
+  split at h
+  · simp at h
+  · next hd =>
+    simp only [Bool.not_eq_true, Bool.not_eq_false] at hd
+    cases hc : charAt body start with
+    | none => rw [hc] at hd; simp [isDigitOpt] at hd
+    | some c =>
+      rw [hc] at hd
+      obtain ⟨hl, he⟩ := charAt_some_lt body start c hc
+      obtain ⟨a, b, d⟩ := digitsLoop_spec body (start + 1) r h (by omega)
+      refine ⟨by omega, b, d.cons hl ?_⟩
+      rw [he]; exact isDigit_not_nl c (by simpa [isDigitOpt] using hd)
+
+/-- State threaded through `read_number`: the scanned stretch `[start, position)` has no line
+terminator, and `char` is the (optional) character at `position`. -/
+def NumInv (body : List Nat) (start position : Nat) (char : Option Nat) : Prop :=
+  start ≤ position ∧ position ≤ body.length + 1 ∧ NoNL body start position ∧
+    char = charAt body position ∧ (position = body.length + 1 → False)
+
+end Gql.Text
